@@ -68,6 +68,19 @@ func handlerResult(kind, text string) (*redis.Message, error) {
 	return nil, nil
 }
 
+// readThrough reads every array of the message to its end.
+func readThrough(m *redis.Message) {
+	if arr, err := m.Array(); err == nil && arr != nil {
+		for {
+			e, _ := arr.Next()
+			if e == nil {
+				return
+			}
+			readThrough(e)
+		}
+	}
+}
+
 func c04Check(cs c04Case) (clause, detail string) {
 	// framing-only judgement of integer lines: a handler can build an integer
 	// message with arbitrary text through the low-level API; the statement is
@@ -90,8 +103,24 @@ func c04Check(cs c04Case) (clause, detail string) {
 		d := srv.NewDouble()
 		catalogueDouble(d)
 		if cs.Kind == "handler" {
+			// "shared-K": the application builds the reply once and returns the same
+			// message object from every call; "read-K": it reads the reply it built
+			// (counting, logging) to the end before returning it
+			mode, kind, has := strings.Cut(cs.Result, "-")
+			if !has || (mode != "shared" && mode != "read") {
+				mode, kind = "", cs.Result
+			}
+			var kept *redis.Message
 			d.Result = func(d *srv.Double, c srv.Call) (*redis.Message, error) {
-				return handlerResult(cs.Result, cs.Text)
+				if mode == "shared" && kept != nil {
+					return kept, nil
+				}
+				m, err := handlerResult(kind, cs.Text)
+				if mode == "read" && m != nil {
+					readThrough(m)
+				}
+				kept = m
+				return m, err
 			}
 		}
 		server = srv.NewServer(d)
@@ -215,6 +244,15 @@ func c04Run(c *fw.Ctx) {
 			}
 			for _, tx := range texts {
 				run(c04Case{Kind: "handler", Input: concat(grammar.Encode(tr), ping), NReq: 2, Result: k, Text: tx, Method: tr[0]}, tr[0]+"|handler-"+k)
+			}
+		}
+	}
+	// (b') replies the application keeps and returns again, or has read before returning them
+	for _, tr := range triggers {
+		for _, k := range []string{"shared-array", "shared-nested", "shared-bulk", "shared-status", "read-array", "read-nested"} {
+			for _, tx := range []string{"v", Nasty[0], Nasty[1]} {
+				req := grammar.Encode(tr)
+				run(c04Case{Kind: "handler", Input: concat(req, req, req, ping), NReq: 4, Result: k, Text: tx, Method: tr[0]}, tr[0]+"|handler-"+k)
 			}
 		}
 	}
